@@ -88,6 +88,7 @@ fn corpus_case(seed: u64, i: u64) -> (ConvCase, Vec<usize>, String) {
             as_reader_calls: 1,
             finish: Finish::Respond { status: 200, body_len: *rng.pick(&[0usize, 10, 2000]), declared: true, threshold: None, max_piece: 100000 },
             pre_delay_us: 0,
+            zero_read_after: None,
         };
         p.push_valid(&a, &wire_body, designated, LenExp::Any, plan, label);
     }
@@ -263,6 +264,7 @@ fn run_response_case(ctx: &Ctx, env: &Env, cs: u64) {
             Finish::Respond { status: 200, body_len, declared, threshold: None, max_piece: 1 << 20 }
         },
         pre_delay_us: if behaviour == 0 { 3000 } else { 0 },
+        zero_read_after: None,
     };
     let flabel = plan.finish_label();
     p.push_valid(&a, &[], Vec::new(), LenExp::Any, plan, "resp");
